@@ -701,6 +701,11 @@ class Dohard(_Symlink):
 
     _link = os.link
 
+    def run(self, args):
+        # both paths name entries of the image
+        args.source = pjoin(self.op.ED, args.source.lstrip(os.path.sep))
+        super().run(args)
+
 
 class Doman(_InstallWrapper):
     """Python wrapper for doman."""
